@@ -709,6 +709,11 @@ func (g *Grammar) resolvePair(x int, c *Cell) {
 					c.Want = b
 				case "right":
 					c.Want = a
+				case "precedence":
+					// bison's %precedence gives a level and no associativity; what happens at equal
+					// level is not part of the statement (bison: unresolved, yaccgo: as %nonassoc)
+					c.Judged = false
+					c.Why = "equal level on a %precedence line"
 				default:
 					c.Want = Act{Kind: Error}
 				}
@@ -875,4 +880,164 @@ func (t *Table) Action(s, x int) Act {
 		return c.Want
 	}
 	return Act{Kind: Error}
+}
+
+// SentencesOfLength returns, for every requested length that some sentence
+// of the grammar has, up to two sentences of exactly that length (terminal
+// ids): one built by preferring the first rule and the leftmost split that
+// work, one by preferring the last rule and the rightmost split. Lengths up
+// to maxLen are tabulated by a fixpoint over "nonterminal X derives a string
+// of length n"; the construction then only follows choices that are known to
+// succeed, so it never backtracks.
+func (g *Grammar) SentencesOfLength(lengths []int) [][]int {
+	maxLen := 0
+	for _, l := range lengths {
+		if l > maxLen {
+			maxLen = l
+		}
+	}
+	n := len(g.Names)
+	can := make([][]bool, n) // can[x][l]
+	for x := 0; x < n; x++ {
+		can[x] = make([]bool, maxLen+1)
+		if !g.IsNT[x] && maxLen >= 1 {
+			can[x][1] = true
+		}
+	}
+	// seqCan(rhs, from)[l]: the symbols rhs[from:] derive a string of length l
+	seqCan := func(rhs []int) [][]bool {
+		t := make([][]bool, len(rhs)+1)
+		for i := range t {
+			t[i] = make([]bool, maxLen+1)
+		}
+		t[len(rhs)][0] = true
+		for i := len(rhs) - 1; i >= 0; i-- {
+			for a := 0; a <= maxLen; a++ {
+				if !can[rhs[i]][a] {
+					continue
+				}
+				for b := 0; a+b <= maxLen; b++ {
+					if t[i+1][b] {
+						t[i][a+b] = true
+					}
+				}
+			}
+		}
+		return t
+	}
+	for changed := true; changed; {
+		changed = false
+		for ri, r := range g.Rules {
+			if ri == 0 {
+				continue
+			}
+			t := seqCan(r.R)
+			for l := 0; l <= maxLen; l++ {
+				if t[0][l] && !can[r.L][l] {
+					can[r.L][l] = true
+					changed = true
+				}
+			}
+		}
+	}
+	// tables per rule, computed once after the fixpoint
+	seq := make([][][]bool, len(g.Rules))
+	for ri, r := range g.Rules {
+		if ri > 0 {
+			seq[ri] = seqCan(r.R)
+		}
+	}
+	type key struct {
+		x, l int
+		last bool
+	}
+	memo := map[key][]int{}
+	failed := map[key]bool{}
+	busy := map[key]bool{}
+	var build func(x, l int, last bool) []int
+	build = func(x, l int, last bool) []int {
+		if !g.IsNT[x] {
+			return []int{x}
+		}
+		k := key{x, l, last}
+		if v, ok := memo[k]; ok {
+			return v
+		}
+		if failed[k] || busy[k] {
+			return nil // a derivation X =>+ X of the same length: take another rule
+		}
+		busy[k] = true
+		defer delete(busy, k)
+		order := make([]int, 0, 8)
+		for ri := 1; ri < len(g.Rules); ri++ {
+			if g.Rules[ri].L == x {
+				order = append(order, ri)
+			}
+		}
+		if last {
+			for i, j := 0, len(order)-1; i < j; i, j = i+1, j-1 {
+				order[i], order[j] = order[j], order[i]
+			}
+		}
+		for _, ri := range order {
+			r := g.Rules[ri]
+			t := seq[ri]
+			if !t[0][l] {
+				continue
+			}
+			out := make([]int, 0, l)
+			rest := l
+			ok := true
+			for i, sym := range r.R {
+				found := -1
+				if last {
+					for a := rest; a >= 0; a-- {
+						if can[sym][a] && t[i+1][rest-a] {
+							found = a
+							break
+						}
+					}
+				} else {
+					for a := 0; a <= rest; a++ {
+						if can[sym][a] && t[i+1][rest-a] {
+							found = a
+							break
+						}
+					}
+				}
+				if found < 0 {
+					ok = false
+					break
+				}
+				sub := build(sym, found, last)
+				if sub == nil {
+					ok = false
+					break
+				}
+				out = append(out, sub...)
+				rest -= found
+			}
+			if ok && rest == 0 && len(out) == l {
+				memo[k] = out
+				return out
+			}
+		}
+		failed[k] = true
+		return nil
+	}
+	var res [][]int
+	for _, l := range lengths {
+		if l > maxLen || !can[g.Start][l] {
+			continue
+		}
+		a := build(g.Start, l, false)
+		if a != nil {
+			res = append(res, a)
+		}
+		b := build(g.Start, l, true)
+		if b != nil && fmt.Sprint(b) != fmt.Sprint(a) {
+			res = append(res, b)
+		}
+	}
+	return res
 }
